@@ -1,11 +1,9 @@
 (* driver.ml — reads one S-expression per line, evaluates the extracted model, prints one
    result per line.  Only glue: integer <-> nat/N conversion, S-expression reader/printer. *)
-open Sv
+type sexp = A of Stdlib.String.t | L of sexp list
 
-type sexp = A of string | L of sexp list
-
-let parse_sexp (s : string) : sexp =
-  let n = String.length s in
+let parse_sexp (s : Stdlib.String.t) : sexp =
+  let n = Stdlib.String.length s in
   let pos = ref 0 in
   let rec skip () = if !pos < n && (s.[!pos] = ' ' || s.[!pos] = '\t') then (incr pos; skip ()) in
   let rec parse () =
@@ -23,9 +21,11 @@ let parse_sexp (s : string) : sexp =
     end else begin
       let st = !pos in
       while !pos < n && s.[!pos] <> ' ' && s.[!pos] <> '(' && s.[!pos] <> ')' do incr pos done;
-      A (String.sub s st (!pos - st))
+      A (Stdlib.String.sub s st (!pos - st))
     end in
   parse ()
+
+open Sv
 
 let rec nat_of_int (i : int) : nat = if i <= 0 then O else S (nat_of_int (i - 1))
 let rec int_of_nat (n : nat) : int = match n with O -> 0 | S k -> 1 + int_of_nat k
@@ -35,14 +35,50 @@ let n_of_int (i : int) : n = if i = 0 then N0 else Npos (pos_of_int i)
 let rec int_of_pos (p : positive) : int = match p with XH -> 1 | XO q -> 2 * int_of_pos q | XI q -> 2 * int_of_pos q + 1
 let int_of_n (x : n) : int = match x with N0 -> 0 | Npos p -> int_of_pos p
 
+let z_of_int (i : int) : z = if i = 0 then Z0 else if i > 0 then Zpos (pos_of_int i) else Zneg (pos_of_int (- i))
+let int_of_z (x : z) : int = match x with Z0 -> 0 | Zpos p -> int_of_pos p | Zneg p -> - (int_of_pos p)
+(* big integers are printed in decimal without going through OCaml int *)
+let rec pos_to_digits (p : positive) : int list =  (* little-endian base 10 *)
+  let double ds carry =
+    let rec go ds c = match ds with
+      | [] -> if c = 0 then [] else [c]
+      | d :: r -> let v = 2 * d + c in (v mod 10) :: go r (v / 10) in
+    go ds carry in
+  match p with
+  | XH -> [1]
+  | XO q -> double (pos_to_digits q) 0
+  | XI q -> double (pos_to_digits q) 1
+let show_pos p = Stdlib.String.concat "" (List.rev_map string_of_int (pos_to_digits p))
+let show_z (x : z) = match x with Z0 -> "0" | Zpos p -> show_pos p | Zneg p -> "-" ^ show_pos p
+(* decimal string -> Z without overflow *)
+let z_of_string (s : Stdlib.String.t) : z =
+  let neg = Stdlib.String.length s > 0 && s.[0] = '-' in
+  let s' = if neg then Stdlib.String.sub s 1 (Stdlib.String.length s - 1) else s in
+  let acc = ref Z0 in
+  Stdlib.String.iter (fun ch -> acc := Z.add (Z.mul !acc (z_of_int 10)) (z_of_int (Char.code ch - 48))) s';
+  if neg then Z.opp !acc else !acc
+
+let show_exn = function
+  | SelectorSyntaxError None -> "(SelectorSyntaxError none)"
+  | SelectorSyntaxError (Some p) -> Printf.sprintf "(SelectorSyntaxError %d)" (int_of_nat p)
+  | NotImplementedError -> "NotImplementedError" | KeyError -> "KeyError" | TypeError -> "TypeError"
+  | ValueError -> "ValueError" | IndexError -> "IndexError" | AttributeError -> "AttributeError"
+  | UnicodeDecodeError -> "UnicodeDecodeError" | RecursionError -> "RecursionError" | OutOfFuel -> "OutOfFuel"
+let show_res f = function Ok a -> "(ok " ^ f a ^ ")" | Raise e -> "(raise " ^ show_exn e ^ ")"
+let show_bool b = if b then "true" else "false"
+let show_pv = function
+  | PTuple l -> "(tuple " ^ Stdlib.String.concat " " (List.map show_z l) ^ ")"
+  | PNum (m, k) -> Printf.sprintf "(num %s %s)" (show_z m) (show_z k)
+let show_opt f = function None -> "none" | Some x -> "(some " ^ f x ^ ")"
+
 let atom = function A s -> s | L _ -> failwith "atom expected"
 let int_ x = int_of_string (atom x)
 let str_ = function L l -> List.map (fun x -> n_of_int (int_ x)) l | A _ -> failwith "list expected"
-let key_ x = let s = atom x in List.init (String.length s) (fun i -> n_of_int (Char.code s.[i]))
+let key_ x = let s = atom x in List.init (Stdlib.String.length s) (fun i -> n_of_int (Char.code s.[i]))
 
-let show_str (s : n list) = "(" ^ String.concat " " (List.map (fun c -> string_of_int (int_of_n c)) s) ^ ")"
+let show_str (s : n list) = "(" ^ Stdlib.String.concat " " (List.map (fun c -> string_of_int (int_of_n c)) s) ^ ")"
 let show_caps caps =
-  "(" ^ String.concat " " (List.map (fun (g, (a, b)) ->
+  "(" ^ Stdlib.String.concat " " (List.map (fun (g, (a, b)) ->
     Printf.sprintf "(%d %d %d)" (int_of_nat g) (int_of_nat a) (int_of_nat b)) caps) ^ ")"
 
 let find_pattern name =
@@ -51,7 +87,7 @@ let find_pattern name =
     | (k, r) :: rest -> if k = name then r else go rest in
   go pattern_table
 
-let handle (e : sexp) : string =
+let handle (e : sexp) : Stdlib.String.t =
   match e with
   | L [A "rematch"; name; i; s] ->
     (match rmatch (find_pattern (key_ name)) (str_ s) (nat_of_int (int_ i)) with
@@ -62,16 +98,24 @@ let handle (e : sexp) : string =
      | None -> "none"
      | Some ((a, b), caps) -> Printf.sprintf "(some %d %d %s)" (int_of_nat a) (int_of_nat b) (show_caps caps))
   | L [A "finditer"; name; s] ->
-    "(" ^ String.concat " " (List.map (fun ((a, b), caps) ->
+    "(" ^ Stdlib.String.concat " " (List.map (fun ((a, b), caps) ->
       Printf.sprintf "(%d %d %s)" (int_of_nat a) (int_of_nat b) (show_caps caps))
       (finditer (find_pattern (key_ name)) (str_ s))) ^ ")"
+  | L [A "parse_value"; t; v] -> show_res (show_opt show_pv) (parse_value (str_ t) (str_ v))
+  | L [A "match_range"; t; mn; mx; v; inr] ->
+    let o = function A "none" -> None | L [A "some"; x] -> Some (str_ x) | _ -> failwith "opt" in
+    show_res show_bool (match_range (str_ t) (o mn) (o mx) (o v) (atom inr = "true"))
+  | L [A "validate_week"; y; w] -> show_res show_bool (validate_week (z_of_string (atom y)) (z_of_string (atom w)))
+  | L [A "validate_day"; y; m; d] ->
+    show_bool (validate_day (z_of_string (atom y)) (z_of_string (atom m)) (z_of_string (atom d)))
+  | L [A "iso_weeks"; y] -> show_z (iso_weeks (z_of_string (atom y)))
   | _ -> failwith "unknown command"
 
 let () =
   try
     while true do
       let line = input_line stdin in
-      if String.length line > 0 then begin
+      if Stdlib.String.length line > 0 then begin
         let out = (try handle (parse_sexp line) with
                    | Stack_overflow -> "(error stack_overflow)"
                    | Failure m -> "(error " ^ m ^ ")"
